@@ -71,7 +71,8 @@ def g_obs(draw):
         lvl = draw(st.sampled_from(
             ['all', 'paths', 'summary', 0, 1, 7, 50, 100000,
              ('mb', -2), ('mb', -1), ('mb', 0), ('mb', 1), ('mb', 2),
-             ('mb', 3)]))
+             ('mb', 3), ('mbq', -1), ('mbq', 0), ('mbq', 1), ('mbq', 2),
+             ('mbq', 3)]))
         obs['log'] = {
             'name': draw(st.sampled_from(['api', 'http', 'all'])),
             'dest': draw(st.sampled_from(['file', 'stderr', None])),
@@ -113,9 +114,15 @@ def strategy():
     return strat()
 
 
-def _mb_offset(bodies, reqs, delta):
-    "byte offset of a multi-byte character in a request/response +- delta"
-    for b in list(bodies) + [r.body for r in reqs]:
+def _mb_offset(bodies, reqs, delta, requests_first=False):
+    """
+    byte offset of a multi-byte character in a response/request +- delta
+    ('mb': the first response that has one, else a request; 'mbq': the
+    other way round - the logged request is cut as well)
+    """
+    order = [r.body for r in reqs] + list(bodies) if requests_first else \
+        list(bodies) + [r.body for r in reqs]
+    for b in order:
         if not b:
             continue
         for i, c in enumerate(b):
@@ -203,7 +210,8 @@ def _oracle(ctx, ex, obs, prelude=False):
     if log:
         level = log['level']
         if isinstance(level, tuple):
-            level = _mb_offset(bodies0, ad0.requests, level[1])
+            level = _mb_offset(bodies0, ad0.requests, level[1],
+                               requests_first=(level[0] == 'mbq'))
     old_stderr = sys.stderr
     conn_holder = []
 
